@@ -265,7 +265,7 @@ def lin_eval(b, local, depth=0):
     """evaluate a usize expression to (constant, coefficient of an unknown length n) or None"""
     if depth > 12:
         return None
-    defs = b.defs().get(local, [])
+    defs = [d for d in b.defs().get(local, []) if not (len(d) > 3 and d[3] == "spliced")]
     if len(defs) != 1:
         return None
     d = defs[0]
@@ -486,7 +486,8 @@ def e2_e3(ctx, prog, bodies):
         _, e, d = sock[0]
         er = variant_regions_encoder(e)
         want = {v: total(seq_in(e, er[v][1])) for v in er}
-        for h in helpers:
+        for h0 in helpers:
+            h = prog.flat(h0.defp)
             regs = _helper_regions(h)
             for v, blocks in regs.items():
                 got = ret_lin(h, blocks, prog)
